@@ -23,7 +23,7 @@ theorem setAdd_val (r a : Fe) (m1 m2 : Nat) (hr : r.mag m1) (ha : a.mag m2) (hm 
   simp only []
   omega
 
-theorem mulInt_val (r : Fe) (m k : Nat) (hr : r.mag m) (hk : k ≤ 32) (hm : m * k ≤ 32) :
+theorem mulInt_val (r : Fe) (m k : Nat) (hr : r.mag m) (hm : m * k ≤ 32) :
     (mulInt r k).val = r.val * k ∧ (mulInt r k).mag (m * k) := by
   unfold Fe.mag at *
   obtain ⟨h0, h1, h2, h3, h4⟩ := hr
